@@ -62,6 +62,8 @@ struct Case {
     cosine: bool,
     init: Vec<(usize, Meta)>,
     allow_orphans: bool,
+    /// hnsw_max_elements: 512, or just above the number of distinct ids (tombstone compaction inside insert)
+    max_el: usize,
     ops: Vec<Op>,
 }
 
@@ -295,6 +297,9 @@ fn gen_case(r: &mut Rng) -> Case {
     let n_init = r.below(3) as usize;
     let init: Vec<(usize, Meta)> = (0..n_init).map(|_| (r.below(7) as usize, gen_meta(r))).collect();
     let allow_orphans = r.chance(1, 7);
+    // at most N_IDS (6) ids can be live, so 7 / 8 physical slots never refuse an insert, but every
+    // few overwrites / deletes the insert path has to compact tombstones and retry
+    let max_el = *r.pick(&[512usize, 512, 7, 8]);
     let pokes = r.chance(3, 5);
     let n = r.range(4, 40) as usize;
     // approximate generator-side shadow (id -> (vec idx, version)) only used to bias the pokes
@@ -408,7 +413,7 @@ fn gen_case(r: &mut Rng) -> Case {
         };
         ops.push(op);
     }
-    Case { strategy, cap_a, cap_b, soft, hard, cosine, init, allow_orphans, ops }
+    Case { strategy, cap_a, cap_b, soft, hard, cosine, init, allow_orphans, max_el, ops }
 }
 
 /// Directed histories (always run first): the sequences named in the property text and the two
@@ -416,7 +421,7 @@ fn gen_case(r: &mut Rng) -> Case {
 fn directed() -> Vec<Case> {
     let m0: Meta = vec![];
     let m1: Meta = vec![(0, 0)];
-    let base = Case { strategy: 0, cap_a: 1, cap_b: 1, soft: 100, hard: 4, cosine: false, init: vec![(0, m0.clone())], allow_orphans: false, ops: vec![] };
+    let base = Case { strategy: 0, cap_a: 1, cap_b: 1, soft: 100, hard: 4, cosine: false, init: vec![(0, m0.clone())], allow_orphans: false, max_el: 512, ops: vec![] };
     let mut out = vec![];
     // 1. by-design witness: a planted mirror entry for an absent id is resurrected by a forced drain
     out.push(Case {
@@ -581,7 +586,7 @@ fn run_case(c: &Case) -> RunResult {
         hot_tier_max_size: c.soft,
         hot_tier_hard_limit: c.hard,
         hot_tier_max_age: Duration::from_secs(3600),
-        hnsw_max_elements: 512,
+        hnsw_max_elements: c.max_el,
         embedding_dimension: 4,
         hnsw_distance: if c.cosine { DistanceMetric::Cosine } else { DistanceMetric::Euclidean },
         data_dir: None,
@@ -952,6 +957,7 @@ fn case_json(c: &Case, r: Option<&RunResult>) -> Value {
         "cap_a": c.cap_a, "cap_b": c.cap_b, "soft": c.soft, "hard": c.hard, "cosine": c.cosine,
         "init": c.init.iter().map(|(v, m)| json!([v, meta_json(m)])).collect::<Vec<_>>(),
         "allow_orphans": c.allow_orphans,
+        "max_el": c.max_el,
         "ops": c.ops.iter().map(op_text).collect::<Vec<_>>(),
         "ops_raw": c.ops.iter().map(op_raw).collect::<Vec<_>>(),
     });
@@ -971,6 +977,7 @@ fn case_from_json(v: &Value) -> Case {
         cosine: v["cosine"].as_bool().unwrap(),
         init: v["init"].as_array().unwrap().iter().map(|d| (d[0].as_u64().unwrap() as usize, meta_from(&d[1]))).collect(),
         allow_orphans: v["allow_orphans"].as_bool().unwrap(),
+        max_el: v["max_el"].as_u64().unwrap_or(512) as usize,
         ops: v["ops_raw"].as_array().unwrap().iter().map(op_from).collect(),
     }
 }
